@@ -25,7 +25,13 @@ func (i vIns) End() model.Addr     { return i.end }
 func (i vIns) Jumps() []expr.Expr { return i.jumps }
 
 func VerifC08Parse() {
-	n := sym.Choose(sym.Param("maxn", 3) + 1)
+	// dense family: exactly maxn contiguous 4-byte instructions in address order,
+	// every jump present with a constant target, entry at the first instruction
+	dense := sym.Param("dense", 0) == 1
+	n := sym.Param("maxn", 3)
+	if !dense {
+		n = sym.Choose(sym.Param("maxn", 3) + 1)
+	}
 	base := sym.SmallBase("base")
 	// top address byte non-zero: ConstUint's scan for the highest non-zero byte
 	// then does not fork eight ways per constant (layouts are translation invariant)
@@ -35,10 +41,13 @@ func VerifC08Parse() {
 	off := uint64(0)
 	var begins, ends []uint64
 	for i := 0; i < n; i++ {
-		if i > 0 && sym.Choose(2) == 1 {
+		if !dense && i > 0 && sym.Choose(2) == 1 {
 			off += 2 // address gap
 		}
-		l := uint64(2 + 2*sym.Choose(2))
+		l := uint64(4)
+		if !dense {
+			l = uint64(2 + 2*sym.Choose(2))
+		}
 		ins = append(ins, vIns{begin: model.Addr(base + off), end: model.Addr(base + off + l), id: i})
 		begins, ends = append(begins, off), append(ends, off+l)
 		off += l
@@ -60,11 +69,11 @@ func VerifC08Parse() {
 	var targets []uint64
 	if n > 0 {
 		for j := 0; j < sym.Param("maxjumps", 1); j++ {
-			if sym.Choose(2) == 0 {
+			if !dense && sym.Choose(2) == 0 {
 				continue
 			}
 			i := sym.Choose(n)
-			if sym.Choose(2) == 0 {
+			if !dense && sym.Choose(2) == 0 {
 				ins[i].jumps = append(ins[i].jumps, expr.NewRegLoad(expr.Key(fmt.Sprintf("t%d", i)), 8))
 				continue
 			}
@@ -73,13 +82,20 @@ func VerifC08Parse() {
 			ins[i].jumps = append(ins[i].jumps, expr.NewConstUint(base+t, 8))
 		}
 	}
-	entryOff := cands[sym.Choose(len(cands))]
+	entryOff := uint64(0)
+	if !dense {
+		entryOff = cands[sym.Choose(len(cands))]
+	}
 	entry := model.Addr(base + entryOff)
 
 	// input order: as is, reversed or rotated
 	in := make([]vIns, n)
 	copy(in, ins)
-	switch sym.Choose(3) {
+	perm := 0
+	if !dense {
+		perm = sym.Choose(3)
+	}
+	switch perm {
 	case 1:
 		for i, j := 0, n-1; i < j; i, j = i+1, j-1 {
 			in[i], in[j] = in[j], in[i]
